@@ -195,6 +195,9 @@ func (ex *Exec) writeEvidence(cfg *PropConfig, tier string, seed int, reps []*Fu
 			assumptions = append(assumptions, "axiom "+a.Name+" (specs)")
 		}
 	}
+	for _, e := range ex.exemptions {
+		assumptions = append(assumptions, "exemption: "+e)
+	}
 	for _, w := range sortedBoolKeys(ex.warnings) {
 		assumptions = append(assumptions, "engine note: "+w)
 	}
